@@ -37,6 +37,7 @@ def unary_menu():
     add(("punique", 2, "idx0", "first"), ("p",), "p")      # partition_unique keyed by x[0] (non-callable key)
     add(("punique", 2, "idx0", "last"), ("p",), "p")
     add(("sinkf", "rec3"), ("i", "p"), "none")     # sink(func, *args, **kwargs)
+    add(("sinktxt",), ("i", "p"), "none")          # sink_to_textfile(file-like, end="|")
     add(("flatten",), ("p", "tn", "te"), "i")
     add(("pluck", 0), ("p", "tn"), "i")
     add(("pluck", (1, 0)), ("p",), "p")
